@@ -11,8 +11,8 @@ IMPLICIT = ('implicit', 'cranknicolson', 'gear', 'trapezoidal', 'backwardeuler')
 
 
 class FModel:
-    def __init__(self):
-        self.neq = 1; self.shape = [1]; self.islinear = 0
+    def __init__(self, islinear=0):
+        self.neq = 1; self.shape = [1]; self.islinear = islinear
     def nameddata(self, name, data):
         return data[0].copy()
 
@@ -26,11 +26,16 @@ class FMesh:
 
 class FDisc:
     """R(t,q)_i = c0 + c1 t + (c2 + c3 t) q_i + c4 q_i q_{i+1};  dt_i = cfl w_i (q_i >= 1/3) or cfl w_i / 2"""
-    def __init__(self, c, w):
+    def __init__(self, c, w, buffered=False):
         self.c = [float(x) for x in c]; self.w = np.array(w, dtype=float); self.nelem = len(w); self.nrhs = 0
+        self.buf = [np.zeros(len(w))] if buffered else None     # see RecDisc: one output reused by every call
     def rhs(self, f):
         t = float(f.time); qd = np.array(f.data[0], dtype=float); c = self.c; self.nrhs += 1
-        return [c[0] + c[1] * t + (c[2] + c[3] * t) * qd + c[4] * qd * np.roll(qd, -1)]
+        out = c[0] + c[1] * t + (c[2] + c[3] * t) * qd + c[4] * qd * np.roll(qd, -1)
+        if self.buf is not None:
+            self.buf[0][:] = out
+            return self.buf
+        return [out]
     def calc_timestep(self, f, cfl):
         return np.where(f.data[0] >= 1.0 / 3.0, cfl * self.w, cfl * self.w / 2)
     def all_L2average(self, r):
@@ -48,14 +53,22 @@ def rand_problem(rng, cls, linear=False):
         #                                                        Jacobian perturbation epsdiff*mean|q| degenerates (exact 0 vs 1e-17)
         if not linear:
             c[4] = dyadic(rng, -0.25, 0.25)
+    islinear = 0
+    if cls in IMPLICIT and linear and rng.random() < 0.5:
+        # declared linear (`model.islinear`): the implementation may keep the Jacobian of the first step; with a time-independent
+        # Jacobian (c3 = 0) that is the same linearisation as the model's, which recomputes it
+        islinear = 1; c[3] = 0.0
     w = [abs(dyadic(rng, 0.25, 1.0, 3)) + 0.25 for _ in range(n)]
     q0 = [dyadic(rng, -1.5, 1.5, 4) for _ in range(n)]
     if cls in IMPLICIT:
         q0 = [abs(x) + 0.5 for x in q0]
-    return dict(cls=cls, n=n, c=c, w=w, q0=q0)
+    return dict(cls=cls, n=n, c=c, w=w, q0=q0, buffered=bool(rng.random() < 0.3), islinear=islinear)
 
 
-def rand_call(rng, t0, dt, first):
+EXACT_TIME = ('explicit', 'forwardeuler', 'rk2', 'implicit', 'backwardeuler', 'cranknicolson', 'trapezoidal', 'gear')   # time advanced by exact dyadic sums
+
+
+def rand_call(rng, t0, dt, first, cls=None):
     kind = 'solve' if first or rng.random() < 0.4 else 'restart'
     nst = int(rng.integers(1, 6))
     T = dt * nst * float(rng.choice([1.0, 0.9, 1.3]))
@@ -76,9 +89,22 @@ def rand_call(rng, t0, dt, first):
         ts = sorted(t0 + rng.uniform(0, 1.2 * T, int(rng.integers(1, 4))))
     # dyadic save times; an odd multiple of 1/1024 never ties with an iteration time (multiples of 1/64):
     # exact ties are decided by binary64 round-off of the accumulated time in the implementation
-    ts = [float(x) if x == t0 else float(np.round(x * 512) / 512 + 1.0 / 1024) for x in ts]
-    mode = int(rng.integers(3)) if ts else 1
-    stop = None if mode == 0 else ({'maxit': nst} if mode == 1 else {'tottime': float(np.round((t0 + T) * 512) / 512 + 1.0 / 1024), 'maxit': nst + int(rng.integers(-1, 2))})
+    # ... except for the integrators whose time is an exact dyadic sum (one `time += dt` per step): there ties are decided
+    # identically by the implementation and the model, and they are a documented case (a step landing exactly on a save /
+    # stop time): save and stop times on the iteration grid (multiples of 1/64) with probability 0.4
+    tie = cls in EXACT_TIME and rng.random() < 0.4
+    off = 0.0 if tie else 1.0 / 1024
+    grid = 64 if tie else 512
+    ts = [float(x) if x == t0 else float(np.round(x * grid) / grid + off) for x in ts]
+    ts = [x for x in ts]
+    mode = int(rng.integers(4)) if ts else int(rng.choice([1, 3]))
+    tt = float(np.round((t0 + T) * grid) / grid + off)
+    if tie and ts and rng.random() < 0.5:
+        tt = ts[-1]                       # the stop time IS the last save time
+    both = {'tottime': tt, 'maxit': nst + int(rng.integers(-1, 2))}
+    if mode == 3:
+        both = {'maxit': both['maxit'], 'tottime': both['tottime']}      # the other key order
+    stop = None if mode == 0 else ({'maxit': nst} if mode == 1 else both)
     freqs = [int(x) for x in rng.choice([1, 2, 3, 5], size=int(rng.integers(0, 3)))]
     return dict(kind=kind, tsave=ts, stop=stop, freqs=freqs, dtlocal=bool(rng.random() < 0.25))
 
@@ -129,24 +155,29 @@ def layer_driver(ctx):
         cfl = float(ctx.rng.choice([0.5, 0.25, 1.0])) if cls not in IMPLICIT else float(ctx.rng.choice([0.5, 1.0, 2.0]))
         t0 = float(ctx.rng.choice([0.0, 0.25, 1.0]))
         it0 = int(ctx.rng.choice([-1, 0, 4]))
-        dt = cfl * min(p['w'])
         ncalls = int(ctx.rng.integers(1, 4))
-        calls = [rand_call(ctx.rng, t0, dt, j == 0) for j in range(ncalls)]
+        calls = []
+        for j in range(ncalls):
+            # the CFL number may change from one call to the next on the same solver object
+            cj = cfl if ctx.rng.random() < 0.6 else float(ctx.rng.choice([0.5, 0.25, 1.0] if cls not in IMPLICIT else [0.5, 1.0, 2.0]))
+            cl = rand_call(ctx.rng, t0, cj * min(p['w']), j == 0, cls)
+            cl['cfl'] = cj
+            calls.append(cl)
         hist.append(dict(p=p, cfl=cfl, t0=t0, it0=it0, calls=calls))
     # implementation side: run each history on ONE solver object
     for h in hist:
         p = h['p']
         def run():
-            disc = FDisc(p['c'], p['w'])
+            disc = FDisc(p['c'], p['w'], buffered=bool(p.get('buffered')))
             solver = getattr(impl.integ, p['cls'])(FMesh(p['n']), disc)
-            f = impl.field.fdata(FModel(), FMesh(p['n']), [np.array(p['q0'], dtype=float)], t=h['t0'], it=h['it0'])
+            f = impl.field.fdata(FModel(p.get('islinear', 0)), FMesh(p['n']), [np.array(p['q0'], dtype=float)], t=h['t0'], it=h['it0'])
             outs = []
             mon_objs = {}
             for call in h['calls']:
                 mons = {'m%d' % j: {'type': 'data_average', 'data': 'x', 'frequency': fr} for j, fr in enumerate(call['freqs'])}
                 keep = (f.time, f.it, [d.copy() for d in f.data])
                 fn = solver.solve if call['kind'] == 'solve' else solver.restart
-                res = fn(f, h['cfl'], call['tsave'], stop=call['stop'], monitors=mons,
+                res = fn(f, call['cfl'], call['tsave'], stop=call['stop'], monitors=mons,
                          directives={'dtlocal': True} if call['dtlocal'] else {})
                 untouched = (f.time == keep[0] and f.it == keep[1] and all(np.array_equal(a, b) for a, b in zip(f.data, keep[2])))
                 outs.append(dict(inp=(float(f.time), int(f.it), [float(x) for x in f.data[0]]),
@@ -171,7 +202,7 @@ def layer_driver(ctx):
             t_in, it_in, q_in = h['impl'][rnd]['inp']
             itstart = 0 if call['kind'] == 'solve' else max(it_in, 0)
             last = None if call['kind'] == 'solve' else state[i]['last']
-            lines.append(drv_line(h['p'], call, h['cfl'], t_in, itstart, q_in, last))
+            lines.append(drv_line(h['p'], call, call['cfl'], t_in, itstart, q_in, last))
             idx.append(i)
         ans = ctx.lean.ask(lines)
         for i, line in zip(idx, ans):
@@ -185,7 +216,7 @@ def layer_driver(ctx):
             state[i]['last'] = m['last']
             tau = 2.0 ** -30 if cls not in IMPLICIT else 1e-6
             sc = max(1.0, max(abs(x) for x in h['p']['q0']), max(abs(float(x)) for x in m['data'])) * 8
-            tsc = max(1.0, abs(h['t0']) + 8 * h['cfl'])
+            tsc = max(1.0, abs(h['t0']) + 8 * max(c_['cfl'] for c_ in h['calls']))
             okc = True
             okc &= r.compare_exact(cls + '/caller-field-untouched', inp, im['untouched'], True)
             okc &= r.compare_exact(cls + '/nit', inp, im['nit'], m['nit'])
